@@ -30,6 +30,14 @@ RULE = ('sessions = scenario histories (chains and cycles of new objects, update
 SCEN = [
     # _delete_ of an object whose one-to-one partner (cascaded) clears its back reference: the object is queued twice (see c16_impl.pending)
     ('delete-requeues-object', 'S3', [["new", 0, 1, []], ["new", 5, 1, [[1, ["o", 0]]]], ["new", 1, 1, [[1, ["os", [0]]]]], ["commit"], ["del", 0], ["commit"]]),
+    # an object that is already queued as 'modified' and is then deleted must move to the end of the queue (its old slot is vacated): its
+    # dependents - deleted explicitly (no ON DELETE action), cascaded (ON DELETE CASCADE) or detached (ON DELETE SET NULL) - are written first
+    ('modified-parent-deleted-after-children', 'S2', [["new", 0, 1, [[8, ["i", 0]]]], ["new", 1, 1, [[1, ["o", 0]]]], ["commit"], ["set", 0, 3, ["i", 1]],
+                                                      ["del", 1], ["del", 0], ["commit"]]),
+    ('modified-parent-deleted-with-cascade', 'S1', [["new", 0, 1, [[5, ["i", 0]]]], ["new", 4, 1, [[1, ["o", 0]]]], ["commit"], ["set", 0, 3, ["i", 1]],
+                                                    ["del", 0], ["commit"]]),
+    ('modified-parent-deleted-children-detached', 'S2', [["new", 0, 1, [[8, ["i", 0]]]], ["new", 5, 1, []], ["new", 5, 2, [[3, ["o", 1]]]], ["commit"],
+                                                         ["set", 1, 1, ["o", 0]], ["del", 1], ["commit"]]),
     # chains of new objects created in the "wrong" order for the queue: the referenced object is created later / reached through an update
     ('chain-new-parent-after-child', 'S1', [["new", 0, 1, [[5, ["i", 0]]]], ["commit"], ["new", 4, 1, [[1, ["o", 0]]]], ["new", 0, 2, [[5, ["i", 1]]]],
                                              ["set", 1, 1, ["o", 2]], ["new", 6, 1, [[1, ["o", 1]]]], ["commit"]]),
